@@ -253,6 +253,8 @@ def run(ctx):
     ctx.rule('FD-VALID', 'every test of a descriptor value against a constant is `< 0`, `>= 0` or an (in)equality with a negative code: descriptor 0 is valid and must be closed like any other', floor=6)
     from engine.fdvalid import fd_valid
     fd_valid(ctx, prog)
+    from engine.fixture import generic_fixture
+    generic_fixture(ctx, [('FD-VALID', lambda c_, p_: fd_valid(c_, p_, minimum=0), 'bad_fd')])
 
     ctx.rule('OWN-OVERWRITE', 'an owned pointer field (released only at close) is never overwritten by a fresh allocation while it may hold one: every path to the store frees the old value, '
              'assigns NULL, passes a guard that implies NULL, or starts at the entry of a function that runs once per handle; realloc-in-place exempt', floor=30)
